@@ -2,7 +2,7 @@
 from world import amounts, specials
 
 ID = "C14"
-LEAN_MODULES = ["QtyModel.Props.C14", "QtyModel.Props.C14RoundTrip", "QtyModel.Props.Backends", "QtyModel.Props.TieConverter"]
+LEAN_MODULES = ["QtyModel.Props.C14", "QtyModel.Props.C14RoundTrip", "QtyModel.Props.Backends", "QtyModel.Props.TieConverter", "QtyModel.Props.OracleSoundC14"]
 HARNESS_GROUPS = ('g_tconv', 'temp')
 TCONV_TYPES = ["Temperature", "S:Sn", "S:Sc", "S:Sa", "Length"]
 RULE = ("random conversion tables (0..12 rows, duplicates, missing pairs) over types with and without reference unit x "
